@@ -437,7 +437,7 @@ func (x *Exec) prepass() {
 		}
 		for i := len(stmtStack) - 1; i >= 0; i-- {
 			switch stmtStack[i].(type) {
-			case *ast.AssignStmt, *ast.ExprStmt, *ast.ReturnStmt, *ast.SendStmt, *ast.IncDecStmt, *ast.DeclStmt:
+			case *ast.AssignStmt, *ast.ExprStmt, *ast.ReturnStmt, *ast.SendStmt, *ast.IncDecStmt, *ast.DeclStmt, *ast.GoStmt, *ast.DeferStmt:
 				x.anchors[stmtStack[i]] = append(x.anchors[stmtStack[i]], a)
 				return
 			}
@@ -1046,8 +1046,8 @@ func (g *Global) errVarInitNonNil(v *types.Var) bool {
 func (x *Exec) execPrefix(list []ast.Stmt, st *State, env *Env) Flow {
 	fl := Flow{normal: st}
 	for _, s := range list {
-		if fl.normal == nil {
-			break
+		if fl.normal == nil || fl.normal.pc == "false" {
+			break // every path has returned or reached its first go statement
 		}
 		stop := false
 		var f Flow
